@@ -66,6 +66,15 @@ CHECKS = {
         "Hypothesis adds long histories and arbitrary-text QueryParams/FormData round-trips.",
         "popitem may pick any present key; update(mapping) follows collections.abc.MutableMapping.update.",
     ),
+    "C18": (
+        "exploration",
+        "Hypothesis + full product of small dimensions against a reference URL assembler / independent URL splitter / list-of-pairs query model",
+        "Request URLs are built from generated (scheme, server, Host, root path, path, query) combinations as WSGI environ and ASGI scope and "
+        "compared with a reference assembler (all small dimensions as a full product, the rest generated); replace() is checked on URLs "
+        "assembled from components for every generated subset of replaced components with an independently written splitter; query "
+        "helpers against a list-of-pairs model; repr() for password leaks.",
+        "url.path may be raw or once-percent-decoded equal. Userinfo/host text needs no percent-encoding (password may contain ':' and '@').",
+    ),
 }
 
 NOT_YET = "check not built yet (work in progress; see DESIGN.md section 3 for the plan)"
